@@ -153,7 +153,7 @@ class Case(object):
     self.t0 = time.time()
 
   def solve(self, qname, bad, assumptions=(), expect='unsat', timeout=60, witness=None,
-            sig=None, required=True, kind='main', replay=None, note=None, logic=None, robust=None):
+            sig=None, required=True, kind='main', replay=None, note=None, logic=None, robust=None, probe=False):
     """Ask the solver for a model of  assumptions AND ctx-assumptions AND bad.
 
     expect='unsat': property query (sat = candidate violation).
@@ -203,6 +203,13 @@ class Case(object):
         s = s2
       else:
         res['weak_witness'] = True
+    if verdict == 'sat' and expect == 'sat' and probe:
+      # a satisfiable twin whose model is additionally run on the real code (e.g. eager-mode behaviour)
+      m = s.model()
+      res['witness'] = {k: model_array(m, arr) for k, arr in (witness or {}).items()}
+      res['sig'] = sig(m) if callable(sig) else (sig or {})
+      res['replay'] = replay
+      res['probe'] = True
     if verdict == 'sat' and expect == 'unsat':
       m = s.model()
       w = {}
